@@ -74,7 +74,7 @@ type Muxer struct {
 	opened bool
 
 	fragTs                uint64 // 新建立fragment时的时间戳，毫秒 * 90
-	recordMaxFragDuration float64
+	recordMaxFragDuration int    // record m3u8的EXT-X-TARGETDURATION，所有分片时长四舍五入后的最大值，单位秒
 
 	nfrags int            // 该值代表直播m3u8列表中ts文件的数量
 	frag   int            // frag 写入m3u8的EXT-X-MEDIA-SEQUENCE字段
@@ -368,8 +368,8 @@ func (m *Muxer) closeFragment(isLast bool) error {
 func (m *Muxer) writeRecordPlaylist() {
 	// 找出整个直播流从开始到结束最大的分片时长
 	currFrag := m.getClosedFrag()
-	if currFrag.duration > m.recordMaxFragDuration {
-		m.recordMaxFragDuration = currFrag.duration + 0.5
+	if d := roundDuration(currFrag.duration); d > m.recordMaxFragDuration {
+		m.recordMaxFragDuration = d
 	}
 
 	fragLines := fmt.Sprintf("#EXTINF:%.3f,\n%s\n", currFrag.duration, currFrag.filename)
@@ -379,7 +379,7 @@ func (m *Muxer) writeRecordPlaylist() {
 		// m3u8文件已经存在
 
 		content = bytes.TrimSuffix(content, []byte("#EXT-X-ENDLIST\n"))
-		content, err = updateTargetDurationInM3u8(content, int(m.recordMaxFragDuration))
+		content, err = updateTargetDurationInM3u8(content, m.recordMaxFragDuration)
 		if err != nil {
 			Log.Errorf("[%s] update target duration failed. err=%+v", m.UniqueKey, err)
 			return
@@ -396,7 +396,7 @@ func (m *Muxer) writeRecordPlaylist() {
 		var buf bytes.Buffer
 		buf.WriteString("#EXTM3U\n")
 		buf.WriteString("#EXT-X-VERSION:3\n")
-		buf.WriteString(fmt.Sprintf("#EXT-X-TARGETDURATION:%d\n", int(m.recordMaxFragDuration)))
+		buf.WriteString(fmt.Sprintf("#EXT-X-TARGETDURATION:%d\n", m.recordMaxFragDuration))
 		buf.WriteString(fmt.Sprintf("#EXT-X-MEDIA-SEQUENCE:%d\n\n", 0))
 
 		if currFrag.discont {
@@ -415,11 +415,11 @@ func (m *Muxer) writeRecordPlaylist() {
 }
 
 func (m *Muxer) writePlaylist(isLast bool) {
-	// 找出时长最长的fragment
-	maxFrag := float64(m.config.FragmentDurationMs) / 1000
+	// EXT-X-TARGETDURATION: 列表中每个分片的EXTINF时长四舍五入到整数秒后，都不能超过它 (RFC 8216 4.3.3.1)
+	targetDuration := m.config.FragmentDurationMs / 1000
 	m.iterateFragsInPlaylist(func(frag *fragmentInfo) {
-		if frag.duration > maxFrag {
-			maxFrag = frag.duration + 0.5
+		if d := roundDuration(frag.duration); d > targetDuration {
+			targetDuration = d
 		}
 	})
 
@@ -428,7 +428,7 @@ func (m *Muxer) writePlaylist(isLast bool) {
 	buf.WriteString("#EXTM3U\n")
 	buf.WriteString("#EXT-X-VERSION:3\n")
 	buf.WriteString("#EXT-X-ALLOW-CACHE:NO\n")
-	buf.WriteString(fmt.Sprintf("#EXT-X-TARGETDURATION:%d\n", int(maxFrag)))
+	buf.WriteString(fmt.Sprintf("#EXT-X-TARGETDURATION:%d\n", targetDuration))
 	buf.WriteString(fmt.Sprintf("#EXT-X-MEDIA-SEQUENCE:%d\n\n", m.extXMediaSeq()))
 
 	m.iterateFragsInPlaylist(func(frag *fragmentInfo) {
@@ -446,6 +446,11 @@ func (m *Muxer) writePlaylist(isLast bool) {
 	if err := writeM3u8File(buf.Bytes(), m.playlistFilename, m.playlistFilenameBak); err != nil {
 		Log.Errorf("[%s] write live m3u8 file error. err=%+v", m.UniqueKey, err)
 	}
+}
+
+// roundDuration 分片时长（秒）四舍五入到整数秒
+func roundDuration(duration float64) int {
+	return int(duration + 0.5)
 }
 
 func (m *Muxer) ensureDir() {
